@@ -399,6 +399,32 @@ def function_nests(path, rel, cls, fn, switch):
     return fn_name, nests, sorted(set(reductions))
 
 
+ORDER_FREE = {"nanmin", "nanmax", "min", "max", "any", "all", "argwhere"}
+
+
+def diagnose(items):
+    """Readable hints for a human when the Coq obligation race_free_b fails.  NOT trusted, NOT used by the proof:
+    a re-implementation of Model/Prange.v rule_of in Python, only to name the loop and the array."""
+    out = []
+    for rel, fn_name, ln, var, _switch, accs, carried, reds in items:
+        for c in carried:
+            out.append(f"{rel}:{ln} {fn_name}: scalar '{c}' is carried across iterations of '{var}'")
+        for r in reds:
+            if r not in ORDER_FREE:
+                out.append(f"{rel} {fn_name}: order-dependent reduction '{r}' in a parallel function")
+        for arr in sorted({a for a, st, _, _, _ in accs if st}):
+            mine = [x for x in accs if x[0] == arr]
+            rank = max(len(x[2]) for x in mine)
+            pos = any(all(len(x[2]) > p and x[2][p] == f"IVar {q(var)}" for x in mine) for p in range(rank))
+            const = all(x[1] and x[3].startswith("VConst") and x[3] == mine[0][3] for x in mine)
+            ind = all(x[1] and x[2] and all(c == f"IInd {q(var)}" for c in x[2]) for x in mine)
+            if not (pos or const or ind):
+                lines = sorted({x[4] for x in mine})
+                out.append(f"{rel}:{ln} {fn_name}: array '{arr}' has no index position holding '{var}' in all its "
+                           f"accesses (lines {lines})")
+    return out
+
+
 def main():
     root = os.path.join(REPO, "pandora")
     files = sorted(glob.glob(os.path.join(root, "**", "*.py"), recursive=True))
@@ -455,8 +481,10 @@ def main():
             + f"    [{'; '.join(q(c) for c in carried)}]\n    [{'; '.join(q(r) for r in reds)}]")
     body += ";\n".join(chunks) + "\n].\n"
     _, changed = emit("Prange", body, sources)
+    diag = diagnose(items)
     print(f"Gen/Prange.v {'written' if changed else 'unchanged'}: {n_kernels} parallel kernels, {len(items)} prange loops, "
-          f"{sum(len(i[5]) for i in items)} accesses")
+          f"{sum(len(i[5]) for i in items)} accesses" + ("; DIAGNOSTIC (not part of the proof) suspicious: " + "; ".join(diag)
+                                                              if diag else ""))
 
 
 if __name__ == "__main__":
